@@ -39,8 +39,70 @@ ZOPE_PROJECTS = [
     {"zp/__init__.py": "from zp._i import IFoo\n__all__ = ['IFoo']\n", "zp/_i.py": "from zope.interface import Interface\nclass IFoo(Interface):\n    pass\n",
      "zp/a.py": "from zope.interface import implementer\nfrom zp._i import IFoo\n@implementer(IFoo)\nclass A:\n    pass\n",
      "zp/b.py": "from zope.interface import implementer\nimport zp\n@implementer(zp.IFoo)\nclass B:\n    pass\nclass B:\n    'redefined'\n"},
+    # an interface moved by a re-export, named through its ORIGINAL location by several implementers (and two interfaces at once)
+    {"zp/__init__.py": "from zp._iface import IPlugin, IOther\n__all__ = ['IPlugin', 'IOther']\n",
+     "zp/_iface.py": "from zope.interface import Interface\nclass IPlugin(Interface):\n    def run(): 'doc'\nclass IOther(Interface):\n    pass\n",
+     "zp/alpha.py": "from zope.interface import implementer\nfrom zp._iface import IPlugin, IOther\n@implementer(IPlugin)\nclass One:\n    def run(self): pass\n"
+                    "@implementer(IOther, IPlugin)\nclass Both:\n    def run(self): pass\n",
+     "zp/beta.py": "from zope.interface import implementer\nimport zp._iface\n@implementer(zp._iface.IPlugin)\nclass Three(object):\n    pass\n"},
     {"zp/__init__.py": "", "zp/m.py": "from zope.interface import Interface, implements, classImplements, moduleProvides\nclass IM(Interface):\n    pass\nmoduleProvides(IM)\nclass C:\n    implements(IM)\nclass D:\n    pass\nclassImplements(D, IM)\n"},
 ]
+
+
+def c_extension_package(ctx: Ctx) -> Dict[str, int]:
+    """A package made of a pure Python module and of compiled extension modules (copies of extension modules of the running
+       interpreter's standard library: no compiler needed), documented by introspection (--introspect-c-modules): the registry
+       clauses and 'functions directly in classes are methods' hold for what introspection builds as well."""
+    import importlib.machinery
+    import shutil
+    import sys
+    import sysconfig
+    from pydoctor import model
+    dirs = [d for d in [sysconfig.get_config_var("DESTSHARED")] + list(sys.path) if d and Path(d).is_dir()]
+    found: Dict[str, str] = {}
+    for name in ("_struct", "_random", "array", "_csv", "_bisect", "_heapq", "_json", "math", "zlib"):
+        for d in dirs:
+            for suffix in importlib.machinery.EXTENSION_SUFFIXES:
+                f = Path(d) / (name + suffix)
+                if f.is_file() and name not in found:
+                    found[name] = str(f)
+    stats = {"extension_modules": len(found), "objects": 0, "functions_in_classes": 0}
+    if not found:
+        return stats
+    pk = ctx.scratch / "cext" / "fastlib"
+    pk.mkdir(parents=True)
+    (pk / "__init__.py").write_text("'pure part'\n")
+    (pk / "pure.py").write_text("class P:\n    def m(self): pass\ndef f(): pass\n")
+    for name, src in found.items():
+        shutil.copy(src, pk / Path(src).name)
+    system = model.System()
+    system.options.introspect_c_modules = True
+    orig = model.System.msg
+    model.System.msg = lambda self, *a, **k: None
+    crashed = ""
+    try:
+        b = system.systemBuilder(system)
+        b.addModule(pk)
+        try:
+            b.buildModules()
+        except Exception as e:
+            crashed = f"{type(e).__name__}: {e}"
+    finally:
+        model.System.msg = orig
+    origin = {"family": "c-extension", "shape": ",".join(sorted(found))}
+    if crashed:
+        ctx.violation({"invariant": "NoCrash", "origin": origin, "exc": crashed, "key": "cext-crash:" + crashed[:60]})
+        return stats
+    stats["objects"] = len(system.allobjects)
+    stats["functions_in_classes"] = sum(1 for o in system.allobjects.values() if isinstance(o, model.Function) and isinstance(o.parent, model.Class))
+    for d in P.derived_relations(system):
+        ctx.violation({"invariant": d.split(":")[0], "detail": d, "origin": origin, "key": f"derived:{d.split(':')[0]}:cext"})
+    for k, o in system.allobjects.items():
+        if o.fullName() != k or (o.parent is not None and o.parent.contents.get(o.name) is not o and " " not in o.name):
+            ctx.violation({"invariant": "KeysAreCurrentNames", "detail": k, "origin": origin, "key": "cext-keys"})
+            break
+    ctx.traces += 1
+    return stats
 
 
 def testpackages() -> List[Path]:
@@ -252,6 +314,7 @@ def run(ctx: Ctx) -> int:
         if len(b["rec"].events) <= 60:
             traces.append(trace_of(b["rec"]))
             origins.append({k: v for k, v in origin.items()})
+    ctx.extra["c_extension_package"] = c_extension_package(ctx)
     # ---- several paths on one command line, name clashes between them (Roots.tla, every sequence replayed)
     from .. import rootscheck
     ctx.extra["roots"] = rootscheck.run(ctx, 2 if ctx.quick else 3, ["a", "b"])
